@@ -23,6 +23,29 @@ def check(repo: Repo, run: Run) -> None:
     )
     run.assumptions = ["the lark parser instance is safe to share between threads for parse() (third-party)"]
     c05.check_channels(repo, run, "C16")
+    # T2: a process-wide cell that is written on the API path is loaded at most once per function that uses it:
+    # a second load may observe another thread's object (check-then-use on the shared slot)
+    fns = channels.all_functions(repo)
+    g = channels.call_graph(repo, fns)
+    path = channels.reachable(g, [r for r in channels.PUBLIC_OPS if r in fns])
+    writes = [w for w in channels.find_writes(repo, fns) if w.kind == "class-attr" and (w.fn.mod, w.fn.qual) in path
+              and not w.fn.qual.endswith(("__enter__", "__exit__"))]
+    cells = sorted({w.cell for w in writes})
+    n2 = 0
+    for cell in cells:
+        cname, attr = cell.split(".")
+        for key in sorted(path):
+            f = fns[key]
+            loads = [n for n in channels.own_nodes(f.node) if isinstance(n, ast.Attribute) and isinstance(n.ctx, ast.Load)
+                     and n.attr == attr and (dotted(n.value) or "").split(".")[-1] in (cname, "cls")]
+            if not loads:
+                continue
+            n2 += 1
+            run.ob("C16.T2", f"{cell}@{f.qual}", len(loads) <= 1,
+                   f"{f.label} loads the process-wide slot {cell} {len(loads)} time(s): " +
+                   ("a single snapshot" if len(loads) <= 1 else "between two loads another thread's Environment() may replace the object, so the object checked is not the object kept/used"),
+                   repo.mod(f.mod).loc(loads[-1]))
+    run.unit("process_wide_cells", cells)
     # T1b: parse() must use the parser its CELParser was given, not re-read the class-level slot
     cp = repo.mod("celparser")
     parse = cp.func("CELParser.parse")
